@@ -26,7 +26,7 @@ def publish_raw_start(w, sm_arn, data, message_id=None, definition=None):
 
 
 def run_monitored(case, schedule=(), want=("lifecycle", "ack", "history", "surface"), seed=0, store="file", tick=1e-6,
-                  starts=None, n_engines=1, max_steps=4000, tz="UTC", split=False, orphan_retention_ms=3000, probe=None, logging=None, rerun_same_name=False, dup_replies=0, midrun_reads=0):
+                  starts=None, n_engines=1, max_steps=4000, tz="UTC", split=False, orphan_retention_ms=3000, probe=None, logging=None, rerun_same_name=False, dup_replies=0, midrun_reads=0, past_expiry=0):
     """
     case: dict(definition, input, oracle, type).  starts: list of dict(mode="api"|"raw"|"raw-id", input=..., name=...).
     -> dict(fails={monitor: [(bucket, detail)]}, info={...}, world closed)
@@ -34,7 +34,8 @@ def run_monitored(case, schedule=(), want=("lifecycle", "ack", "history", "surfa
     starts = starts or [{"mode": "api", "input": case["input"], "name": "e1"}]
     # orphaned replies (replies to cancelled tasks) are retained, unacknowledged, for orphaned_response_retention_ms:
     # a short retention keeps "quiescence" within a few virtual seconds (the production default is 10 minutes)
-    w = W.World(seed=seed, tz=tz, tick=tick, store=store, orphan_retention_ms=orphan_retention_ms)
+    extra_world = {"execution_ttl": past_expiry} if past_expiry else {}
+    w = W.World(seed=seed, tz=tz, tick=tick, store=store, orphan_retention_ms=orphan_retention_ms, **extra_world)
     out = {"fails": {}, "info": {}}
     try:
         ids = ["A", "B", "C"][:n_engines]
@@ -105,6 +106,13 @@ def run_monitored(case, schedule=(), want=("lifecycle", "ack", "history", "surfa
         res = w.run(schedule, max_steps=max_steps, until=settled)
         if res == "until":
             res = "quiescent"
+        if past_expiry and res == "quiescent":
+            # let the expiry back stop of the join state pass (execution_ttl, checked every 60 heartbeats) with the monitors attached: whatever was still being kept for an
+            # execution that has ended is released then, and nothing else happens (no second terminal status, no change of the record, no new history)
+            w.advance(past_expiry + 130)
+            res = w.run([], max_steps=max_steps, until=settled)
+            if res == "until":
+                res = "quiescent"
         if rerun_same_name and res == "quiescent":
             # the same execution name is used again after the first run has ended (names are not checked for uniqueness)
             for m_ in mons.values():
